@@ -47,6 +47,7 @@ Record st := { heap : list dictT; attrs : cls -> cattr;
                houses : list (nat * nat * nat);            (* names['store'|'tasker'|'log'] *)
                framers : list nat;                          (* .frameNames *)
                fhouse : list (option nat);                  (* framer.store.house (index), parallel to framers *)
+               finfo : list (name * nat);                   (* (framer.name, instance id), parallel to framers *)
                ninst : nat }.
 
 Definition init_attrs (c : cls) : cattr :=
@@ -57,7 +58,7 @@ Definition init_attrs (c : cls) : cattr :=
   | CFramer | CLogger => {| cnt := None; nms := None |}
   end.
 Definition init : st :=
-  {| heap := [[]; []; []; []; []]; attrs := init_attrs; houses := []; framers := []; fhouse := []; ninst := 0 |}.
+  {| heap := [[]; []; []; []; []]; attrs := init_attrs; houses := []; framers := []; fhouse := []; finfo := []; ninst := 0 |}.
 
 Definition eff_cnt (s : st) (c : cls) : Z :=
   match cnt (attrs s c) with
@@ -77,9 +78,9 @@ Definition eff_nms (s : st) (c : cls) : nat :=
   end.
 Definition set_attr (s : st) (c : cls) (a : cattr) : st :=
   {| heap := heap s; attrs := fun c' => if cls_eqb c c' then a else attrs s c';
-     houses := houses s; framers := framers s; fhouse := fhouse s; ninst := ninst s |}.
+     houses := houses s; framers := framers s; fhouse := fhouse s; finfo := finfo s; ninst := ninst s |}.
 Definition set_heap (s : st) (h : list dictT) : st :=
-  {| heap := h; attrs := attrs s; houses := houses s; framers := framers s; fhouse := fhouse s; ninst := ninst s |}.
+  {| heap := h; attrs := attrs s; houses := houses s; framers := framers s; fhouse := fhouse s; finfo := finfo s; ninst := ninst s |}.
 
 Fixpoint upd (d : nat) (f : dictT -> dictT) (h : list dictT) : list dictT :=
   match h, d with
@@ -117,7 +118,7 @@ Definition reg (s : st) (c : cls) (nk : namekind) (pre : name) (orc : list Z) : 
   let d := nth di (heap s) [] in
   let register nm :=
     ({| heap := upd di (dsetN nm (ninst s)) (heap s1); attrs := attrs s1; houses := houses s1;
-        framers := framers s1; fhouse := fhouse s1; ninst := S (ninst s) |}, Ok nm) in
+        framers := framers s1; fhouse := fhouse s1; finfo := finfo s1; ninst := S (ninst s) |}, Ok nm) in
   let auto := match autoname (S (maxlen d)) d ((match pre with [] => clsname c | _ => pre end) ++ digits k) orc with
               | Some nm => register nm
               | None => (s1, OutOfFuel)
@@ -133,6 +134,7 @@ Inductive op :=
 | Create (c : cls) (nk : namekind) (pre : name) (orc : list Z)   (* c <> CHouse *)
 | CreateFramerIn (h : nat) (nk : namekind) (pre : name) (orc : list Z)   (* Framer(store=houses[h].store, ...) *)
 | Clone (f : nat) (n : name) (orc : list Z)   (* framers[f].clone(name=n) ; n = "" -> automatic name *)
+| Prune (f : nat)                              (* framers[f].prune() : the framer frees its own name *)
 | CreateHouse (nk : namekind) (pre : name) (orc : list Z)
 | Assign (h : nat)            (* houses[h].assignRegistries() *)
 | AssignFrame (f : nat)       (* framers[f].assignFrameRegistry() *)
@@ -154,7 +156,15 @@ Definition assign (s : st) (abc : nat * nat * nat) : st :=
 Definition add_framer (s : st) (ho : option nat) : st * nat :=
   let '(s2, d) := alloc s in
   ({| heap := heap s2; attrs := attrs s2; houses := houses s2; framers := framers s2 ++ [d];
-      fhouse := fhouse s2 ++ [ho]; ninst := ninst s2 |}, d).
+      fhouse := fhouse s2 ++ [ho]; finfo := finfo s2; ninst := ninst s2 |}, d).
+(* remember the new framer's name and identity (used by prune) *)
+Definition note (s : st) (nm : name) (i : nat) : st :=
+  {| heap := heap s; attrs := attrs s; houses := houses s; framers := framers s; fhouse := fhouse s;
+     finfo := finfo s ++ [(nm, i)]; ninst := ninst s |}.
+(* Framer.prune: `if self.name in Framer.Names and Framer.Names[self.name] == self: del Framer.Names[self.name]`
+   -- the entry goes only if it is THIS instance; Framer.Names is whatever namespace is current *)
+Definition dremove (nm : name) (i : nat) (d : dictT) : dictT :=
+  filter (fun p => negb (name_eqb nm (fst p) && Nat.eqb i (snd p))) d.
 
 (* for frame in self.frameNames.values(): frame.clone(framer=clone)  ->  Frame(name=frame.name, ...) *)
 Definition clone_frames (s : st) (nms_ : list name) : st :=
@@ -165,13 +175,13 @@ Definition step (s : st) (x : op) : st * option result :=
   | Create c nk pre orc =>
       let '(s1, r) := reg s c nk pre orc in
       match r, c with
-      | Ok _, CFramer => (fst (add_framer s1 None), Some r)
+      | Ok nm, CFramer => (note (fst (add_framer s1 None)) nm (ninst s), Some r)
       | _, _ => (s1, Some r)
       end
   | CreateFramerIn h nk pre orc =>
       let '(s1, r) := reg s CFramer nk pre orc in
       match r with
-      | Ok _ => (fst (add_framer s1 (if Nat.ltb h (length (houses s)) then Some h else None)), Some r)
+      | Ok nm => (note (fst (add_framer s1 (if Nat.ltb h (length (houses s)) then Some h else None))) nm (ninst s), Some r)
       | _ => (s1, Some r)
       end
   | Clone f n orc =>
@@ -187,14 +197,19 @@ Definition step (s : st) (x : op) : st * option result :=
               then (s1, Some ErrClone)
               else let '(s2, r) := reg s1 CFramer (match n with [] => NAuto | _ => NStr n end) [] orc in
                    match r with
-                   | Ok _ => let '(s3, d) := add_framer s2 (Some h) in
-                             let s4 := set_attr s3 CFrame {| cnt := Some 0; nms := Some d |} in
+                   | Ok nm => let '(s3, d) := add_framer s2 (Some h) in
+                             let s4 := set_attr (note s3 nm (ninst s)) CFrame {| cnt := Some 0; nms := Some d |} in
                              (clone_frames s4 (map fst (nth fd (heap s4) [])), Some r)
                    | _ => (s2, Some r)
                    end
           | None => (s, None)
           end
       | _, _ => (s, None)
+      end
+  | Prune f =>
+      match nth_error (finfo s) f with
+      | Some (nm, i) => (set_heap s (upd (eff_nms s CFramer) (dremove nm i) (heap s)), None)
+      | None => (s, None)
       end
   | CreateHouse nk pre orc =>
       let '(s1, r) := reg s CHouse nk pre orc in
@@ -205,7 +220,7 @@ Definition step (s : st) (x : op) : st * option result :=
           let '(s5, r2) := reg s4 CStore (NStr nm) [] [] in
           match r2 with
           | Ok _ => ({| heap := heap s5; attrs := attrs s5; houses := houses s5 ++ [(a, b, c)];
-                        framers := framers s5; fhouse := fhouse s5; ninst := ninst s5 |}, Some r)
+                        framers := framers s5; fhouse := fhouse s5; finfo := finfo s5; ninst := ninst s5 |}, Some r)
           | _ => (s5, Some r2)
           end
       | _ => (s1, Some r)
